@@ -64,7 +64,7 @@ type c13Inv struct {
 type c13Op struct {
 	Kind   string `json:"kind"` // "sub" | "unsub" | "emit"
 	Cb     int    `json:"cb,omitempty"`
-	Type   string `json:"type"`            // sub: type or "*" for all; emit: event type
+	Type   string `json:"type"`            // sub: type or c13All for all; emit: event type
 	Via    string `json:"via,omitempty"`   // sub: "event" | "messages" | "all"
 	Worker int    `json:"worker,omitempty"`
 }
@@ -76,7 +76,11 @@ type c13Script struct {
 	Procs      int     `json:"gomaxprocs,omitempty"`
 }
 
-var c13Types = []string{"", "t1", "t2"}
+// event types incl. look-alikes of anything an implementation might use as an internal marker
+var c13Types = []string{"", "t1", "t2", "*", "message", "all"}
+
+// c13All marks a subscribe-to-all registration in the model (an event type cannot contain a line break).
+const c13All = "\nALL"
 
 func c13EventBytes(seq int, typ string) string {
 	s := ""
@@ -259,7 +263,7 @@ func runC13(t *testing.T, sc *c13Script) (obs *c13Obs) {
 	return obs
 }
 
-func c13Match(regType, evType string) bool { return regType == "*" || regType == evType }
+func c13Match(regType, evType string) bool { return regType == c13All || regType == evType }
 
 func judgeC13(sc *c13Script, obs *c13Obs) (out []jv) {
 	if obs.Panic != "" {
@@ -488,7 +492,7 @@ func genC13(rng *rand.Rand, concurrent bool) *c13Script {
 			op := c13Op{Kind: "sub", Cb: nextCb}
 			switch rng.IntN(4) {
 			case 0:
-				op.Via, op.Type = "all", "*"
+				op.Via, op.Type = "all", c13All
 			case 1:
 				op.Via, op.Type = "messages", ""
 			default:
